@@ -49,7 +49,7 @@ ASSUMPTIONS = [
 
 
 def budget(tier):
-    return int(os.environ.get("VERIF_BUDGET", 0)) or {"quick": 8000, "thorough": 100000}[tier]
+    return int(os.environ.get("VERIF_BUDGET", 0)) or {"quick": 8000, "thorough": 60000}[tier]
 
 
 # ---------------------------------------------------------------- generation
@@ -251,9 +251,6 @@ def worker_init():
     from pharmpy.workflows import Task, Workflow, WorkflowBuilder, execute_workflow, local_dask  # noqa
     from pharmpy.workflows.contexts import NullContext  # noqa
     from pharmpy.workflows.workflow import insert_context  # noqa
-    from harness.common.paths import scratch_root
-
-    tempfile.tempdir = str(scratch_root())      # run() makes a TemporaryDirectory: keep it off /tmp
     pharmpy.workflows.dispatchers.conf.dask_dispatcher = "threaded"
 
 
@@ -495,6 +492,22 @@ def wire_ops(ops):
 
 
 def run_case(case, drv):
+    """run() of the local dispatcher makes a TemporaryDirectory and chdirs into it: keep it under the
+    scratch root (never /tmp) and remove the scratch root after the case."""
+    import shutil
+
+    from harness.common.paths import scratch_root
+    root = scratch_root()
+    old_tmp = tempfile.tempdir
+    tempfile.tempdir = str(root)
+    try:
+        return _run_case(case, drv)
+    finally:
+        tempfile.tempdir = old_tmp
+        shutil.rmtree(root, ignore_errors=True)
+
+
+def _run_case(case, drv):
     rng = random.Random(case["seed"])
     k, mon, tags = [], [], []
     tasks = [list(t) for t in case["tasks"]]
